@@ -1381,7 +1381,8 @@ class Controller:
                         TransitionComponentToFinalState(comp,
                                                         experiment.model.codes.exitReasons['Success'],
                                                         returncode=0)
-                    elif restartCode == experiment.model.codes.restartCodes["RestartCouldNotInitiate"]:
+                    elif restartCode != experiment.model.codes.restartCodes["RestartInitiated"]:
+                        #RestartCouldNotInitiate or RestartMaxAttemptsExceeded
                         #This is either because the hook failed to prepare restart OR it determined it wasn't possible
                         #In this case we class it as KnownIssue
                         #This allows the components "shutdownOn" spec to be used in a logical fashion
